@@ -13,7 +13,7 @@ open MiniApi
 theorem C05_translated_verify_reconnection_attempt (C : Crypto) (be : Backend) (s : SrpServer) (cd proof draw : Bytes) (rest : List Bytes) :
     Gen.CodeApi.verifyReconnectionAttempt.run (srpPrims C be) (selfServer s) [.bytes cd, .bytes proof] (draw :: rest)
       = some (.ok (.bool (s.verifyReconnectionAttempt C cd proof draw).1, selfServer (s.verifyReconnectionAttempt C cd proof draw).2, rest)) := by
-  simp [Gen.CodeApi.verifyReconnectionAttempt, ApiFn.run, runBody, Rhs.eval, Ret.eval, atomsVal, fieldsVal, Atom.val, lookup, bindVar, setField,
+  simp [Gen.CodeApi.verifyReconnectionAttempt, ApiFn.run, runBody, Rhs.eval, drawKinds, Ret.eval, atomsVal, fieldsVal, Atom.val, lookup, bindVar, setField,
     srpPrims, selfServer, eqVal, SrpServer.verifyReconnectionAttempt, Out.bind, bind]
 
 def selfClient (c : SrpClient) : Fields := [("username", .nstr c.username), ("session_key", .bytes c.sessionKey)]
@@ -24,9 +24,16 @@ theorem C05_translated_calculate_reconnect_values (C : Crypto) (be : Backend) (c
       = some (.ok (.struct "SrpClientReconnection"
           [("challenge_data", .bytes (c.calculateReconnectValues C sd draw).1), ("proof", .bytes (c.calculateReconnectValues C sd draw).2)],
           selfClient c, rest)) := by
-  simp [Gen.CodeApi.calculateReconnectValues, ApiFn.run, runBody, Rhs.eval, Ret.eval, atomsVal, fieldsVal, Atom.val, lookup, bindVar, srpPrims,
+  simp [Gen.CodeApi.calculateReconnectValues, ApiFn.run, runBody, Rhs.eval, drawKinds, Ret.eval, atomsVal, fieldsVal, Atom.val, lookup, bindVar, srpPrims,
     selfClient, SrpClient.calculateReconnectValues, Out.bind, bind]
+
+/-- the parameter lists and return types the terms above were read under (the terms carry parameter NAMES; the types decide what a
+    conversion such as `Generator::from(generator)`, `.into()` or `?` means) -/
+theorem C05_translated_reconnect_signatures :
+    Gen.CodeApi.verifyReconnectionAttemptSig = "&mut self,client_data:[u8;RECONNECT_CHALLENGE_DATA_LENGTH as usize],client_proof:[u8;PROOF_LENGTH as usize],->bool" ∧
+    Gen.CodeApi.calculateReconnectValuesSig = "&self,server_challenge_data:[u8;RECONNECT_CHALLENGE_DATA_LENGTH as usize],->SrpClientReconnection" := by decide +kernel
 
 #print axioms C05_translated_verify_reconnection_attempt
 #print axioms C05_translated_calculate_reconnect_values
+#print axioms C05_translated_reconnect_signatures
 end WowSrp
